@@ -202,9 +202,26 @@ func newBigThriftOps() []*op12 {
 	}
 	bins[2], jsons[2] = truncMid(bins[2]), garbleJSON(jsons[2])
 	errs := func() []bool { return []bool{false, false, true, false} }
+	// a second parse of the same IDL: equal content, other pointers - cutting into it walks the value instead of copying it
+	svc2, err := thrift.NewDescritorFromContent(context.Background(), "big12b.thrift", idl, nil, false)
+	if err != nil {
+		die("big idl: %v", err)
+	}
+	fn2, _ := svc2.LookupFunctionByMethod("M")
+	root2 := fn2.Request().Struct().FieldById(1).Type()
 	return []*op12{
 		{name: "t2j.big", inputs: bins, isErr: errs(), f: func(in []byte) ([]byte, error) { return ct.Do(context.Background(), root, in) }},
 		{name: "j2t.big", inputs: jsons, isErr: errs(), f: func(in []byte) ([]byte, error) { return cj.Do(context.Background(), root, in) }},
+		{name: "tcut.big", inputs: bins, isErr: errs(), f: func(in []byte) ([]byte, error) {
+			return tgen.NewValue(root, in).MarshalTo(root2, &tgen.Options{})
+		}},
+		{name: "tdom.big", inputs: bins, isErr: errs(), f: func(in []byte) ([]byte, error) {
+			pn := tgen.PathNode{Node: tgen.NewNode(thrift.STRUCT, in)}
+			if err := pn.Load(true, &tgen.Options{}); err != nil {
+				return nil, err
+			}
+			return pn.Marshal(&tgen.Options{})
+		}},
 	}
 }
 
@@ -234,6 +251,16 @@ func newBigProtoOps() []*op12 {
 	return []*op12{
 		{name: "p2j.big", inputs: bins, isErr: errs(), f: func(in []byte) ([]byte, error) { return cp.Do(context.Background(), desc, in) }},
 		{name: "j2p.big", inputs: jsons, isErr: errs(), f: func(in []byte) ([]byte, error) { return cj.Do(context.Background(), desc, in) }},
+		{name: "pcut.big", inputs: bins, isErr: errs(), f: func(in []byte) ([]byte, error) {
+			return pgen.NewRootValue(desc, in).MarshalTo(desc, &pgen.Options{})
+		}},
+		{name: "pdom.big", inputs: bins, isErr: errs(), f: func(in []byte) ([]byte, error) {
+			pn := pgen.PathNode{Node: pgen.NewRootValue(desc, in).Node}
+			if err := pn.Load(true, &pgen.Options{}, desc); err != nil {
+				return nil, err
+			}
+			return pn.Marshal(&pgen.Options{})
+		}},
 	}
 }
 
